@@ -109,6 +109,26 @@ func checkE[E cmp.Ordered](c Case, d script.Domain[E]) (pbt.Info, error) {
 	if after := h.Observe(); !all.EqualStates(before, after) {
 		return info, fmt.Errorf("%s ToJSON/Marshal changed the container: %s -> %s", kind, describe(before), describe(after))
 	}
+	// 2b. the returned bytes belong to the caller: serialising other containers
+	// (of this and of other kinds, with other contents) must not change them
+	keep := bytes.Clone(b)
+	for _, otherKind := range []string{kind, "arraylist", "arraystack", "treeset"} {
+		cfg := c.Cfg
+		if otherKind != kind {
+			cfg = all.Cfg{Kind: otherKind}
+		}
+		other := all.New[E](cfg)
+		for i := 0; i < 3+len(c.Ops)%4; i++ {
+			other.Add(d.At(i*5 + len(c.Ops)))
+		}
+		if _, err := other.ToJSON(); err != nil {
+			return info, fmt.Errorf("%s: ToJSON of an unrelated %s failed: %v", kind, otherKind, err)
+		}
+		_, _ = json.Marshal(other.AsJSON)
+	}
+	if !bytes.Equal(b, keep) {
+		return info, fmt.Errorf("%s: the bytes returned by ToJSON changed from %q to %q while other containers were serialised (shared buffer)", kind, keep, b)
+	}
 	// 3. reload into fresh containers of the same configuration
 	f1, f2 := all.New[E](c.Cfg), all.New[E](c.Cfg)
 	if err := f1.FromJSON(b); err != nil {
